@@ -47,6 +47,7 @@ type Contract struct {
 	Unroll     map[int]int
 	Panics     *Clause
 	Inline     bool
+	Abstracts  []*Clause // postconditions ASSUMED at call sites and not checked in the body (reported as unchecked abstractions)
 	Trusted    bool
 	ExternDep  bool // assumed contract of a dependency function (extern func)
 	Emits      bool // may extend the call trace
@@ -108,6 +109,10 @@ type Lemma struct {
 	Axiom bool
 	Where string
 	Vars  []BoundVar
+	// Strings: the lemma is about text only and is decided in the solvers' theory
+	// of strings (Str := String, + := str.++, < := str.<) instead of the
+	// uninterpreted string sort; a refutation then comes with concrete strings.
+	Strings bool
 }
 
 type ClosedIface struct {
@@ -135,7 +140,7 @@ type PkgSpec struct {
 	ExtFuncs  map[string]*Contract // assumed contracts of dependency functions, keyed by ssa.Function.String()
 }
 
-var keywordRe = regexp.MustCompile(`^(func|token|require|monotone|mark|witness|pred|pure|axiom|lemma|extern|closed|protocol|lock|property|requires|ensures|case|modifies|loop|panics|inline|trusted|emits|allocs|unroll|shared|ghost|inv|threads|on|guar|protects|discipline|initonly|atomic|noframe|level|assume|self|local|single|init|rely|counter|holds|acquires)\b`)
+var keywordRe = regexp.MustCompile(`^(abstracts|func|token|require|monotone|mark|witness|pred|pure|axiom|lemma|extern|closed|protocol|lock|property|requires|ensures|case|modifies|loop|panics|inline|trusted|emits|allocs|unroll|shared|ghost|inv|threads|on|guar|protects|discipline|initonly|atomic|noframe|level|assume|self|local|single|init|rely|counter|holds|acquires)\b`)
 
 // parseContractFile extracts the //@ lines of a file.
 func parseContractComments(f *ast.File, fname string) []specLine {
@@ -284,6 +289,11 @@ func parsePkgSpec(pkg string, lines []specLine) (*PkgSpec, error) {
 			// lemma name [C01,C02]: expr
 			i := strings.Index(rest, ":")
 			head := strings.TrimSpace(rest[:i])
+			strMode := false
+			if strings.HasSuffix(head, " strings") {
+				strMode = true
+				head = strings.TrimSpace(strings.TrimSuffix(head, " strings"))
+			}
 			var props []string
 			if b := strings.Index(head, "["); b >= 0 {
 				props = strings.Split(strings.Trim(head[b:], "[]"), ",")
@@ -293,7 +303,7 @@ func parsePkgSpec(pkg string, lines []specLine) (*PkgSpec, error) {
 			if err != nil {
 				return nil, fmt.Errorf("%s: %v", l.where, err)
 			}
-			ps.Lemmas = append(ps.Lemmas, &Lemma{Name: head, Props: props, Expr: x, Axiom: kw == "axiom", Where: l.where})
+			ps.Lemmas = append(ps.Lemmas, &Lemma{Name: head, Props: props, Expr: x, Axiom: kw == "axiom", Where: l.where, Strings: strMode})
 			cur, curProto, curLock = nil, nil, nil
 		case "extern":
 			if strings.HasPrefix(rest, "func ") {
@@ -599,6 +609,12 @@ func (c *Contract) parseLine(curCase **Case, kw, rest, where string) error {
 			return err
 		}
 		c.Assumes = append(c.Assumes, cl)
+	case "abstracts":
+		cl, err := parseLabelled(rest, where)
+		if err != nil {
+			return err
+		}
+		c.Abstracts = append(c.Abstracts, cl)
 	case "holds":
 		// holds <expr>.<lockfield> R|W
 		f := strings.Fields(rest)
